@@ -46,7 +46,7 @@ type Path struct {
 	Final   map[string]absint.Val // loop carried variables at the end: ctxp, m, ip, tmp
 	Cells   map[string]*absint.Cell
 	EndPos  token.Pos
-	Default bool // took the default clause
+	Default bool            // took the default clause
 	Idx     []absint.IdxRec // index / slice expressions on symbolic containers, with whether the path proves their bounds
 }
 
